@@ -23,7 +23,7 @@ PROP = {
     "units": [
         {"pkg": "c09", "test": "TestSequentialWindows", "quick": 20000, "thorough": 100000, "shards": 16},
         {"pkg": "c09", "test": "TestIsolation", "quick": 6000, "thorough": 30000, "shards": 8},
-        {"pkg": "c09", "test": "TestBurst", "quick": 6000, "thorough": 30000, "shards": 8},
+        {"pkg": "c09", "test": "TestBurst", "quick": 16000, "thorough": 30000, "shards": 8},
         {"pkg": "c09", "test": "TestWitnessBoundaryInstant", "kind": "plain"},
     ],
     "technique": ("property-based testing (rapid) of generated arrival histories on a harness-owned virtual clock; oracle = reference counter "
